@@ -5,7 +5,7 @@ from C16 import opt_cfg, SPLINES
 CONTRACT_MODULES = ['ppoly', 'splines', 'optimizer']
 LEVEL = 'proof'
 TRUSTED = ['user cost functors and executors are known only through their protocols (AbstractIntegralCost, ParallelForExecutor)']
-ASSUMPTIONS = ['N <= 2^22, 1 <= K <= 2^22']
+ASSUMPTIONS = ['N <= 2^22, 1 <= K <= 2^22', 'quick tier: evaluate for the cubic instance (caller workspace, built-in workspace, zero waypoint cost, two-cost overload); quintic evaluate in C07 quick; all orders in the thorough tier']
 UNDECIDED_CLAUSES = []
 
 
@@ -43,6 +43,7 @@ def tasks(tier):
         o['type_aliases'] = {'WCF': 'VoidWaypointsCost'}
         T.append(Task('SplineOptimizer', 'evaluate', 7, cfg, label=base + ',own workspace,zero waypoint cost', setup=optimizer_user_maps, options=o,
                       pins={'p_ws_null': False}, gen_options={'void_waypoint_cost': True}))
+        T.append(Task('SplineOptimizer', 'evaluate', 7, cfg, label=base + ',built-in workspace', setup=optimizer_user_maps_owned, options=eval_options(), pins={'p_ws_null': True}))
         T.append(Task('SplineOptimizer', 'evaluate', 6, cfg, label=base + ',two-cost overload', setup=optimizer_user_maps, options=eval_options(), pins={'p_ws_null': False}))
     return T
 
